@@ -25,6 +25,7 @@ EXPLANATION = (
     "each framing is 2 x (address - first address) for Modbus and the plain byte offset for AA55, shared with C02.R3 (R3); the byte "
     "count a type's docstring announces equals what its decoder consumes (R4). Numeric equality on all register contents is a value "
     "level question and is not decided."
+    ' (R0) trim_response must cut by constants (a bound computed from unchecked response bytes is a violation); (R2 sensor-read) path rule: nothing touches the buffer between seek(self.offset) and read_value; (R3 cursor) only ProtocolResponse.seek / read move the payload cursor.'
 )
 
 GROUP_BASES = ("EcoModeV1", "Schedule")
